@@ -47,9 +47,16 @@ Print Assumptions C07_stamp_frame.
 
 (* exactly what one iteration forwards ([head_state s it] = [s] after the handleProgress call at
    the loop head: the same except that [overall] has absorbed the waiting progress values; only
-   the position of recovery's synthetic COMMIT can depend on it) *)
+   the position of recovery's synthetic COMMIT can depend on it).
+   STATEMENT CHANGE (blocked-output loop): the condition [write_fails s it] is new.  It says: the
+   event is an XLogData message that handleXLogData would forward (its WriteLoop is reached) and
+   one of the ticks served there while the output channel is full finds the progress channel
+   closed; then handleProgress's error is returned to Start and the message held is never
+   forwarded (the client stops: C18_blocked_channel_closed_stops).  Without that condition the
+   statement is false: C07_blocked_closed_not_forwarded. *)
 Theorem C07_forwarded_exactly : forall s it,
-  couts (snd (cstep s it)) = if stopped s || i_pclosed it then [] else ev_couts (head_state s it) (i_ev it).
+  couts (snd (cstep s it)) =
+  if stopped s || i_pclosed it || write_fails s it then [] else ev_couts (head_state s it) (i_ev it).
 Proof. exact cstep_couts. Qed.
 Print Assumptions C07_forwarded_exactly.
 
@@ -121,7 +128,7 @@ Proof. exact crun_one_commit. Qed.
 Print Assumptions C07_one_commit.
 
 Definition c07_first : cev := EKeepalive 100 false false.
-Definition c07_it (e : cev) : citer := mkIter false [] false e [] false.
+Definition c07_it (e : cev) : citer := mkIter false [] false e [] false [].
 
 (* regression of finding F3: BEGIN, change, COMMIT, ErrorResponse is inside the domain and now
    forwards ONE COMMIT for the key (before the repair recovery emitted a second one) *)
@@ -185,13 +192,21 @@ Proof. exact cstep_after_drop. Qed.
 Print Assumptions C07_restart_after_drop.
 
 (* complementary: after a COMMIT, or on the first BEGIN of a session, the BEGIN is forwarded
-   with a fresh key and the connection is kept *)
+   with a fresh key and the connection is kept.
+   STATEMENT CHANGE (blocked-output loop): between the receive and the forwarded BEGIN now stand
+   the observations of the ticks served while the output channel is full ([blocked_obs]: per
+   tick a non-fresh connection request and a status update; [] when [i_blocked it = []], which
+   gives back the former statement literally), and if one of those ticks finds the progress
+   channel closed ([blocked_closed]) the stamped BEGIN is not forwarded: Close, Stop instead. *)
 Theorem C07_begin_accepted : forall s it s' o w t,
   stopped s = false -> i_pclosed it = false ->
   saw_commit s = true \/ first_iter s = true ->
   i_ev it = EXLog w (XBegin t) -> cstep s it = (s', o) ->
-  o = head_out s it ++ [COut "BEGIN" t (key_of t (begins s)) w] /\ conn_open s' = true /\
-  highest s' = highest s /\ first_iter s' = false /\ saw_commit s' = false /\ stopped s' = false /\
+  o = head_out s it ++ blocked_obs (highest s) true (hp_val s (i_prog it)) (i_blocked it) ++
+      (if blocked_closed (i_blocked it) then [CClose; CStop] else [COut "BEGIN" t (key_of t (begins s)) w]) /\
+  conn_open s' = negb (blocked_closed (i_blocked it)) /\
+  highest s' = highest s /\ first_iter s' = false /\ saw_commit s' = false /\
+  stopped s' = blocked_closed (i_blocked it) /\
   ctxn s' = t /\ ckey s' = key_of t (begins s).
 Proof. exact cstep_begin_accepted. Qed.
 Print Assumptions C07_begin_accepted.
@@ -246,3 +261,25 @@ Example C07_script_ok_needed :
   let its := [ c07_it (EXLog 200 (XBegin "7")); c07_it (EXLog 300 (XChange "BEGIN")) ] in
   script_ok its = false /\ begin_keys (snd (crun c07_first its)) = ["7-0"; "7-0"]%string.
 Proof. vm_compute. split; reflexivity. Qed.
+
+(* the blocked-output loop.  The first BEGIN of a session is accepted and stamped, the output
+   channel is full, the first tick sends a status update, the second finds the progress channel
+   closed: the BEGIN is NOT forwarded (so [ev_couts] alone would be wrong: the statement change of
+   C07_forwarded_exactly), the client stops.  With no closed tick the BEGIN is forwarded after
+   the updates. *)
+Example C07_blocked_closed_not_forwarded :
+  let s := fst (crun c07_first []) in
+  let it := mkIter false [] false (EXLog 200 (XBegin "7")) [] false [([150], false); ([], true)]%N in
+  write_fails s it = true /\ couts (snd (cstep s it)) = [] /\
+  ev_couts (head_state s it) (i_ev it) = [COut "BEGIN" "7" "7-0" 200] /\
+  stopped (fst (cstep s it)) = true /\ ckey (fst (cstep s it)) = "7-0"%string.
+Proof. vm_compute. repeat split. Qed.
+
+Example C07_blocked_begin_forwarded_after_updates :
+  let s := fst (crun c07_first []) in
+  let it := mkIter false [] false (EXLog 200 (XBegin "7")) [] false [([150], false); ([], false)]%N in
+  write_fails s it = false /\
+  snd (cstep s it) = [CGetStart 0 false; CRecv; CGetStart 0 false; CSend 150; CGetStart 0 false; CSend 150;
+                      COut "BEGIN" "7" "7-0" 200] /\
+  stopped (fst (cstep s it)) = false.
+Proof. vm_compute. repeat split. Qed.
